@@ -52,7 +52,7 @@ def t2(run: Run, prog: Program):
     matrix, the adjacency is rebuilt from that matrix with its diagonal cleared."""
     classes = [c for c in prog.classes.values()
                if prog.is_subclass(c, PLOT_ROOT) and prog.is_subclass(c, "Network")]
-    run.floor("plot+network classes", len(classes), 2)
+    run.floor("plot+network classes", len(classes), 2, hard=True)
     for C in sorted(classes, key=lambda c: c.name):
         M = _matrix_cell(prog, C)
         cells = {M, "_" + M}
